@@ -7,8 +7,16 @@ Import ListNotations.
 Section Lock.
   Context {P C : Type}.
   Variable M : machine P C.
-  (* a transport read takes at least one byte when bytes are available (true of both receiver machines) *)
-  Hypothesis Hprog : forall c ch c' r n room, mtake M c ch = Some (c', r, n, room) -> ch <> [] -> 1 <= n.
+  Variable c0 : C.
+  Variable o0 : oracle.
+  (* [Good c o]: "the loop makes progress from consumer state c with transport o".  It has to hold whenever the loop is
+     entered in the serial run and to be preserved (with a strictly smaller transport) by an iteration that continues. *)
+  Variable Good : C -> oracle -> Prop.
+  Hypothesis Hgood_step : forall c o c' o', Good c o -> rstep_none M c o = RCont c' o' ->
+      Good c' o' /\ oracle_size o' < oracle_size o.
+  Hypothesis Hgood_enter : forall k rs stk ok c1,
+      run_calls M Blocking (linit c0) o0 (repeat None k) = (rs, stk, ok) ->
+      mdrain M (lc stk) = (c1, RStop) -> leof stk = false -> Good c1 ok.
 
   (* ---- the while loop as iterated single steps *)
   Inductive rloop_rel : C -> oracle -> C * bool * oracle * rres P -> Prop :=
@@ -40,10 +48,10 @@ Section Lock.
   Qed.
 
   (* the fuelled loop of Stream/Endpoint.v computes the relation *)
-  Lemma rloop_is_rel : forall f c o el, oracle_size o < f ->
+  Lemma rloop_is_rel : forall f c o el, Good c o -> oracle_size o < f ->
       exists res el', rloop M Blocking f None c o el = (res, el') /\ rloop_rel c o res.
   Proof.
-    induction f; intros c o el Hf; [lia|].
+    induction f; intros c o el HG Hf; [lia|].
     cbn [rloop]. destruct o as [|it o1].
     - eexists _, _. split; [reflexivity|]. apply rl_done. reflexivity.
     - destruct it as [ch dt| | |k].
@@ -51,18 +59,20 @@ Section Lock.
         * eexists _, _. split; [reflexivity|]. apply rl_done. reflexivity.
         * destruct (mtake M c (b :: ch)) as [[[[c1 r1] n] room]|] eqn:Et.
           2:{ eexists _, _. split; [reflexivity|]. apply rl_done. cbn [rstep_none]. rewrite Et. reflexivity. }
-          pose proof (Hprog _ _ _ _ _ _ Et ltac:(discriminate)) as Hn.
-          pose proof (rest_size (b :: ch) n 0 dt o1 Hn) as Hsz.
           set (o2 := if Nat.ltb n (length (b :: ch)) then TData (skipn n (b :: ch)) 0 :: o1 else o1) in *.
           destruct r1.
           -- eexists _, _. split; [reflexivity|]. apply rl_done. cbn [rstep_none]. rewrite Et. reflexivity.
           -- eexists _, _. split; [reflexivity|]. apply rl_done. cbn [rstep_none]. rewrite Et. reflexivity.
-          -- edestruct IHf as (res & el' & E & Hr); [|rewrite E; eexists _, _; split; [reflexivity|]].
+          -- assert (Es : rstep_none M c (TData (b :: ch) dt :: o1) = RCont c1 o2)
+               by (cbn [rstep_none]; rewrite Et; reflexivity).
+             destruct (Hgood_step _ _ _ _ HG Es) as [HG2 Hsz].
+             edestruct IHf as (res & el' & E & Hr); [exact HG2| |rewrite E; eexists _, _; split; [reflexivity|]].
              ++ eapply Nat.lt_le_trans; [exact Hsz|apply (proj1 (Nat.lt_succ_r _ _)); exact Hf].
-             ++ eapply rl_cont; [|exact Hr]. cbn [rstep_none]. rewrite Et. reflexivity.
+             ++ eapply rl_cont; [exact Es|exact Hr].
           -- eexists _, _. split; [reflexivity|]. apply rl_done. cbn [rstep_none]. rewrite Et. reflexivity.
       + eexists _, _. split; [reflexivity|]. apply rl_done. reflexivity.
-      + edestruct IHf as (res & el' & E & Hr); [|rewrite E; eexists _, _; split; [reflexivity|]].
+      + destruct (Hgood_step c (TWouldTimeout :: o1) c o1 HG eq_refl) as [HG2 Hsz].
+        edestruct IHf as (res & el' & E & Hr); [exact HG2| |rewrite E; eexists _, _; split; [reflexivity|]].
         * simpl in Hf. lia.
         * eapply rl_cont; [|exact Hr]. reflexivity.
       + eexists _, _. split; [reflexivity|]. apply rl_done. reflexivity.
@@ -78,27 +88,25 @@ Section Lock.
   Proof. intros st o c' E He. unfold receive. rewrite E, He. eexists; reflexivity. Qed.
 
   Lemma receive_loop : forall st o c1 c' e' o' r, mdrain M (lc st) = (c1, RStop) -> leof st = false ->
-      rloop_rel c1 o (c', e', o', r) ->
+      Good c1 o -> rloop_rel c1 o (c', e', o', r) ->
       exists el, receive M Blocking None st o = ({| lc := c'; leof := e' |}, o', r, el).
   Proof.
-    intros st o c1 c' e' o' r E He Hr. unfold receive. rewrite E, He.
-    destruct (rloop_is_rel (S (oracle_size o)) c1 o 0 (Nat.lt_succ_diag_r _)) as (res & el' & E2 & Hr2).
+    intros st o c1 c' e' o' r E He HG Hr. unfold receive. rewrite E, He.
+    destruct (rloop_is_rel (S (oracle_size o)) c1 o 0 HG (Nat.lt_succ_diag_r _)) as (res & el' & E2 & Hr2).
     rewrite E2. rewrite (rloop_rel_det _ _ _ Hr2 _ Hr). eexists; reflexivity.
   Qed.
 
-  Lemma run_calls_snoc : forall k st0 o0 rs stk ok st' o' r el,
-      run_calls M Blocking st0 o0 (repeat None k) = (rs, stk, ok) ->
+  Lemma run_calls_snoc : forall k st0 oo rs stk ok st' o' r el,
+      run_calls M Blocking st0 oo (repeat None k) = (rs, stk, ok) ->
       receive M Blocking None stk ok = (st', o', r, el) ->
-      run_calls M Blocking st0 o0 (repeat None (S k)) = (rs ++ [(r, o')], st', o').
+      run_calls M Blocking st0 oo (repeat None (S k)) = (rs ++ [(r, o')], st', o').
   Proof.
-    intros k st0 o0 rs stk ok st' o' r el H1 H2.
+    intros k st0 oo rs stk ok st' o' r el H1 H2.
     replace (S k) with (k + 1) by lia. rewrite repeat_app, (run_calls_app M Blocking), H1.
     cbn [repeat run_calls]. rewrite H2. reflexivity.
   Qed.
 
   (* ---- the invariant *)
-  Variable c0 : C.
-  Variable o0 : oracle.
   Variables na nb : nat.
 
   Definition inflight (p : tpc) : nat := match p with TIdle n => n | TBlocked n => S n | TParked n => S n end.
@@ -113,7 +121,7 @@ Section Lock.
       | None => t_c s = lc stk /\ t_eof s = leof stk /\ t_o s = ok /\ is_idle (t_a s) /\ is_idle (t_b s)
       | Some i => (exists n, tget s i = TParked n) /\ not_parked (tget s (negb i)) /\
                   t_eof s = false /\ leof stk = false /\
-                  exists c1, mdrain M (lc stk) = (c1, RStop) /\ rcont_star c1 ok (t_c s) (t_o s)
+                  exists c1, mdrain M (lc stk) = (c1, RStop) /\ Good c1 ok /\ rcont_star c1 ok (t_c s) (t_o s)
       end.
 
   Definition Inv (s : @tstate P C) : Prop :=
@@ -157,7 +165,7 @@ Section Lock.
           destruct j; cbn in *; rewrite Hoth;
             (split; [eexists; reflexivity|]); (split; [intros x; discriminate|]);
             (split; [reflexivity|]); (split; [congruence|]);
-            exists c'; (split; [exact Ed|]); rewrite Ho; constructor.
+            exists c'; (split; [exact Ed|]); (split; [eapply Hgood_enter; eauto; congruence|]); rewrite Ho; constructor.
         * destruct j; cbn in *; rewrite Hoth in *; cbn in *; lia.
     - destruct (receive_event stk ok c' RCrash Ed ltac:(discriminate)) as [el Hr]. rewrite <- He in Hr.
       cbn [fst]. eapply Hret. exact Hr.
@@ -190,14 +198,14 @@ Section Lock.
       destruct Hser as (rs & stk & ok & Hrun & Hmap & Hlock).
       destruct (t_lock s) as [h|] eqn:El.
       2:{ destruct Hlock as (_ & _ & _ & [x Ha] & [y Hb]). destruct i; cbn in Ei; congruence. }
-      destruct Hlock as ((np & Hp) & Hnp & Heof & Hleof & c1 & Hd & Hstar).
+      destruct Hlock as ((np & Hp) & Hnp & Heof & Hleof & c1 & Hd & HGd & Hstar).
       assert (h = i).
       { destruct h, i; cbn in *; try reflexivity; exfalso; eapply Hnp; eauto. }
       subst h.
       destruct (rstep_none M (t_c s) (t_o s)) as [c' e' o' r|c' o'] eqn:Es.
       + (* the call returns: release, wake the other thread if it waits *)
         pose proof (star_done _ _ _ _ Hstar _ (rl_done _ _ _ _ _ _ Es)) as Hrel.
-        destruct (receive_loop stk ok c1 c' e' o' r Hd Hleof Hrel) as [el Hrecv].
+        destruct (receive_loop stk ok c1 c' e' o' r Hd Hleof HGd Hrel) as [el Hrecv].
         set (s1 := tset (tlogr (tlock (tshared s c' e' o') None) i r) i (TIdle n)).
         assert (Hs1 : exists rs1 stk1 ok1,
                    run_calls M Blocking (linit c0) o0 (repeat None (length (t_log s1))) = (rs1, stk1, ok1) /\
@@ -228,7 +236,7 @@ Section Lock.
         * exists rs, stk, ok. split; [exact Hrun|]. split; [exact Hmap|]. cbn. rewrite El.
           split; [destruct i; cbn in *; eexists; eauto|]. split; [destruct i; cbn in *; exact Hnp|].
           split; [reflexivity|]. split; [exact Hleof|].
-          exists c1. split; [exact Hd|]. eapply rs_step; eauto.
+          exists c1. split; [exact Hd|]. split; [exact HGd|]. eapply rs_step; eauto.
         * cbn. exact Hcnt.
   Qed.
 
@@ -298,10 +306,39 @@ Proof.
   destruct ch; [congruence|]. simpl. lia.
 Qed.
 
-Section LockSequence.
+(* ---- instance (a): a transport read takes at least one byte from ANY consumer state *)
+Section LockProg.
   Context {P C : Type}.
   Variable M : machine P C.
   Hypothesis Hprog : forall c ch c' r n room, mtake M c ch = Some (c', r, n, room) -> ch <> [] -> 1 <= n.
+
+  Lemma prog_step : forall c o c' o', True -> rstep_none M c o = RCont c' o' -> True /\ oracle_size o' < oracle_size o.
+  Proof.
+    intros c o c' o' _ H. split; [exact I|]. destruct o as [|it o1]; [discriminate|].
+    destruct it as [ch dt| | |k]; try discriminate.
+    - destruct ch as [|b ch]; [discriminate|]. cbn [rstep_none] in H.
+      destruct (mtake M c (b :: ch)) as [[[[c1 r1] n] room]|] eqn:Et; [|discriminate].
+      pose proof (Hprog _ _ _ _ _ _ Et ltac:(discriminate)) as Hn.
+      destruct r1; try discriminate. inversion H; subst. exact (rest_size (b :: ch) n 0 dt o1 Hn).
+    - inversion H; subst. simpl. lia.
+  Qed.
+
+  Lemma lock_serialises_prog : forall c0 o na nb sch,
+      let s := trun M (tinit c0 o na nb) sch in
+      map snd (rev (t_log s)) =
+      firstn (length (t_log s)) (results (run_calls M Blocking (linit c0) o (repeat None (na + nb)))).
+  Proof. intros c0 o na nb sch. apply (lock_serialises M c0 o (fun _ _ => True) prog_step). auto. Qed.
+
+  Lemma lock_mutex_prog : forall c0 o na nb sch,
+      let s := trun M (tinit c0 o na nb) sch in
+      forall i n, tget s i = TParked n -> t_lock s = Some i /\ (forall m, tget s (negb i) <> TParked m).
+  Proof. intros c0 o na nb sch. apply (lock_mutex M c0 o (fun _ _ => True) prog_step). auto. Qed.
+End LockProg.
+
+(* ---- instance (b): progress on the states the loop actually reaches, from the (relativised) consumer interface *)
+Section LockRel.
+  Context {P C : Type}.
+  Variable M : machine P C.
   Variable spec : bytes -> list (nres P).
   Variable G : bytes -> Prop.
   Variable R : C -> bytes -> nat -> Prop.
@@ -309,6 +346,52 @@ Section LockSequence.
   Hypothesis OK : consumer_ok_rel M spec G R D.
   Variable c0 : C.
   Hypothesis R0 : R c0 [] 0.
+
+  Definition good_rel (c : C) (o : oracle) : Prop := exists d, D c d /\ G (d ++ stream_of o).
+
+  Lemma rel_step : forall c o c' o', good_rel c o -> rstep_none M c o = RCont c' o' ->
+      good_rel c' o' /\ oracle_size o' < oracle_size o.
+  Proof.
+    intros c o c' o' (d & HD & HG) H. destruct o as [|it o1]; [discriminate|].
+    destruct it as [ch dt| | |k]; try discriminate.
+    - destruct ch as [|b ch]; [discriminate|]. cbn [rstep_none] in H.
+      assert (HG1 : G (d ++ b :: ch)).
+      { apply (okr_prefix _ _ _ _ _ OK _ (stream_of o1)). rewrite <- app_assoc. exact HG. }
+      destruct (okr_take _ _ _ _ _ OK c d (b :: ch) HD ltac:(discriminate) HG1) as (c1 & r1 & n & room & Et & Hn & Hpost).
+      pose proof (take_rest (b :: ch) n 0 o1 Hn) as [Hs _]. cbv zeta in Hs.
+      pose proof (rest_size (b :: ch) n 0 dt o1 (proj1 Hn)) as Hsz.
+      rewrite Et in H.
+      set (o2 := if Nat.ltb n (length (b :: ch)) then TData (skipn n (b :: ch)) 0 :: o1 else o1) in *.
+      destruct r1; try discriminate. inversion H; subst c' o'. clear H.
+      split; [|exact Hsz].
+      exists (d ++ firstn n (b :: ch)). split; [apply Hpost|].
+      rewrite <- app_assoc, Hs. exact HG.
+    - inversion H; subst. split; [exists d; auto|simpl; lia].
+  Qed.
+
+  Lemma rel_enter : forall o, G (stream_of o) -> forall k rs stk ok c1,
+      run_calls M Blocking (linit c0) o (repeat None k) = (rs, stk, ok) ->
+      mdrain M (lc stk) = (c1, RStop) -> leof stk = false -> good_rel c1 ok.
+  Proof.
+    intros o HG k rs stk ok c1 Hrun Hd He.
+    destruct (run_calls_inv M Blocking spec G R D OK _ HG _ _ _ _ _ _ _ (Inv_init spec R c0 o R0) Hrun)
+      as (i & d & kk & HR & _ & _ & _ & Hs).
+    rewrite He in Hs.
+    assert (HGd : G d) by (apply (okr_prefix _ _ _ _ _ OK _ (stream_of ok)); rewrite Hs; exact HG).
+    pose proof (okr_drain _ _ _ _ _ OK _ _ _ _ _ HGd HR Hd) as [_ HD].
+    exists d. split; [exact HD|]. rewrite Hs. exact HG.
+  Qed.
+
+  Lemma lock_serialises_rel : forall o na nb sch, G (stream_of o) ->
+      let s := trun M (tinit c0 o na nb) sch in
+      map snd (rev (t_log s)) =
+      firstn (length (t_log s)) (results (run_calls M Blocking (linit c0) o (repeat None (na + nb)))).
+  Proof. intros o na nb sch HG. apply (lock_serialises M c0 o good_rel rel_step (rel_enter o HG)). Qed.
+
+  Lemma lock_mutex_rel : forall o na nb sch, G (stream_of o) ->
+      let s := trun M (tinit c0 o na nb) sch in
+      forall i n, tget s i = TParked n -> t_lock s = Some i /\ (forall m, tget s (negb i) <> TParked m).
+  Proof. intros o na nb sch HG. apply (lock_mutex M c0 o good_rel rel_step (rel_enter o HG)). Qed.
 
   (* two threads, any schedule: the calls, in the order they return, deliver the events of the stream in order, then
      ConnectionAborted *)
@@ -318,10 +401,10 @@ Section LockSequence.
       r = expected (spec (stream_of o)) j.
   Proof.
     intros o na nb sch j r HG H.
-    rewrite (lock_serialises M Hprog c0 o na nb sch) in H. unfold delivered in H. apply filter_firstn_nth in H.
+    rewrite (lock_serialises_rel o na nb sch HG) in H. unfold delivered in H. apply filter_firstn_nth in H.
     exact (recv_sequence_rel M Blocking spec G R D OK c0 R0 o (repeat None (na + nb)) j r HG H).
   Qed.
-End LockSequence.
+End LockRel.
 
 Lemma threads_recv_sequence : forall {P C : Type} (M : machine P C),
     (forall c ch c' r n room, mtake M c ch = Some (c', r, n, room) -> ch <> [] -> 1 <= n) ->
@@ -331,6 +414,6 @@ Lemma threads_recv_sequence : forall {P C : Type} (M : machine P C),
       nth_error (delivered (map snd (rev (t_log (trun M (tinit c0 o na nb) sch))))) j = Some r ->
       r = expected (spec (stream_of o)) j.
 Proof.
-  intros P C M Hprog spec R OK c0 R0 o na nb sch j r H.
-  exact (threads_recv_sequence_rel M Hprog spec _ R _ (consumer_ok_is_rel M spec R OK) c0 R0 o na nb sch j r I H).
+  intros P C M _ spec R OK c0 R0 o na nb sch j r H.
+  exact (threads_recv_sequence_rel M spec _ R _ (consumer_ok_is_rel M spec R OK) c0 R0 o na nb sch j r I H).
 Qed.
